@@ -144,6 +144,8 @@ def set_use(u, par, m):
         return 'indexed'
     if isinstance(par, (ast.AugAssign,)):
         return None
+    if isinstance(par, (ast.Tuple, ast.List, ast.Dict)):
+        return None                                     # stored as an element / value: not iterated here
     return 'used in %s' % type(par).__name__
 
 
